@@ -22,7 +22,8 @@ inductive Kind where
   | schemaMap        -- Definitions / SchemaProperties (properties, patternProperties, nested definitions)
   | schemaVal        -- a `spec.Schema` value inside a map or slice: replaced wholesale through its parent
   | schemaArr        -- []spec.Schema (allOf, anyOf, oneOf) or SchemaOrArray.Schemas (tuple items)
-  | schemaPtr        -- *spec.Schema (schema of a parameter / response, `not`)
+  | schemaPtr        -- *spec.Schema held by a parameter or a response (`schema`)
+  | notPtr           -- *spec.Schema held by a schema (`not`): no holder case in `rewriteParentRef`
   | schemaOrArray    -- *spec.SchemaOrArray holding a single schema (`items: {…}`)
   | schemaOrBool     -- *spec.SchemaOrBool holding a schema (additionalProperties / additionalItems)
   | paths | pathItem | operation | paramArr | param | paramMap | responses | response | respMap
@@ -30,7 +31,7 @@ inductive Kind where
   deriving Repr, DecidableEq, Inhabited
 
 def isSchemaKind : Kind → Bool
-  | .schemaVal | .schemaPtr | .schemaOrArray | .schemaOrBool => true
+  | .schemaVal | .schemaPtr | .notPtr | .schemaOrArray | .schemaOrBool => true
   | _ => false
 
 /-- kind of the child `t` of a node `j` of kind `k` -/
@@ -41,10 +42,10 @@ def childKind (k : Kind) (j : J) (t : String) : Kind :=
     else if t = "parameters" then .paramMap else if t = "responses" then .respMap else .other
   | .schemaMap => .schemaVal
   | .schemaArr => .schemaVal
-  | .schemaVal | .schemaPtr | .schemaOrArray | .schemaOrBool =>
+  | .schemaVal | .schemaPtr | .notPtr | .schemaOrArray | .schemaOrBool =>
     if t = "properties" ∨ t = "patternProperties" ∨ t = "definitions" then .schemaMap
     else if t = "allOf" ∨ t = "anyOf" ∨ t = "oneOf" then .schemaArr
-    else if t = "not" then .schemaPtr
+    else if t = "not" then .notPtr
     else if t = "additionalProperties" ∨ t = "additionalItems" then
       (match j.get? t with | some (.obj _) => .schemaOrBool | _ => .other)
     else if t = "items" then
@@ -101,7 +102,7 @@ def updateRef (d : J) (key ref : String) : Outcome J :=
   | some (node, kind) =>
     match kind with
     | .schemaVal => (match setAt d toks (refNode ref) with | some d' => .ok d' | none => .err "no parent")
-    | .schemaPtr | .schemaOrArray | .schemaOrBool =>
+    | .schemaPtr | .notPtr | .schemaOrArray | .schemaOrBool =>
       (match setAt d toks (node.set "$ref" (.str ref)) with | some d' => .ok d' | none => .err "no parent")
     | _ => .err "no schema with ref"
 
@@ -111,7 +112,8 @@ def rewriteSchemaToRef (d : J) (key ref : String) : Outcome J :=
   match walk .swagger d toks with
   | none => .err "pointer does not resolve"
   | some (_, kind) =>
-    if isSchemaKind kind then
+    if kind = .notPtr then .err "unhandled parent schema rewrite"   -- `rewriteParentRef` has no case for a schema holder
+    else if isSchemaKind kind then
       (match setAt d toks (refNode ref) with | some d' => .ok d' | none => .err "no parent")
     else .err "no schema with ref"
 
